@@ -87,6 +87,15 @@ func (e *Engine) propertyRoots(prop string) []string {
 			}
 		}
 	}
+	if prop == "C07" {
+		var lib []string
+		for _, k := range out {
+			if inRtcm(k) {
+				lib = append(lib, k)
+			}
+		}
+		out = lib
+	}
 	sort.Strings(out)
 	return out
 }
@@ -125,6 +134,25 @@ func (e *Engine) propertyRootsExact(tag string) []string {
 // This keeps quantifier-heavy auxiliary invariants from polluting the other proofs.
 var propGroups = map[string][]string{
 	"C04": {"C04b"},
+}
+
+// Safety obligations (no panic, no out-of-range access, termination measures) are
+// decided once per function.  For the library (packages under rtcm/) that is C07,
+// whose entry points are the ones the property names.  The application stages
+// (apps/*, file_handler, jsonconfig) are outside C07's cone - the library does not
+// call them - and the facts their safety rests on (channels open, queues allocated,
+// configuration present) are the invariants of the pipeline properties, so their
+// safety obligations are decided under every pipeline property whose cone contains
+// the function.
+var pipelineProps = map[string]bool{"C09": true, "C10": true, "C11": true, "C13": true, "C16": true, "C18": true, "C19": true}
+
+func inRtcm(fnKey string) bool { return strings.Contains(fnKey, "/rtcm/") }
+
+func safetyOwner(prop, fnKey string) bool {
+	if inRtcm(fnKey) {
+		return prop == "C07"
+	}
+	return pipelineProps[prop]
 }
 
 // extraRoots: whole-cone properties list their entry points explicitly (filled by property definitions).
@@ -208,6 +236,7 @@ func runProperty(eng *Engine, prop, tier string, opts solveOpts, evidence, repla
 	modes := map[string]string{}
 	var order []string
 	var loadErr []string
+	lemmaUse := map[string]bool{}
 	groups := append([]string{prop}, propGroups[prop]...)
 	for gi, grp := range groups {
 	gprop := grp
@@ -288,14 +317,17 @@ func runProperty(eng *Engine, prop, tier string, opts solveOpts, evidence, repla
 		for a := range u.assumed {
 			assumed[a] = true
 		}
+		for l := range u.lemmasUsed {
+			lemmaUse[l] = true
+		}
 		for a := range u.inlined {
 			inlined[shortKey(a)] = true
 		}
 		for _, o := range u.obls {
-			if safetyKinds[o.Kind] && prop != "C07" && !(o.Kind == "decreases" && contains(o.Props, prop)) {
+			if safetyKinds[o.Kind] && !safetyOwner(prop, k) && !(o.Kind == "decreases" && contains(o.Props, prop)) {
 				continue
 			}
-			if o.Kind == "close-once" && !(prop == "C02" || prop == "C09" || prop == "C07") {
+			if o.Kind == "close-once" && !(safetyOwner(prop, k) || (inRtcm(k) && (prop == "C02" || prop == "C09"))) {
 				continue
 			}
 			if !u.active(o.Props) {
@@ -313,6 +345,27 @@ func runProperty(eng *Engine, prop, tier string, opts solveOpts, evidence, repla
 	}
 	obls = append(obls, structural...)
 	obls = append(obls, eng.bridgeObligations(prop)...)
+	// lemmas instantiated by any unit are proved once per run (and may pull in earlier lemmas)
+	{
+		used := lemmaUse
+		for changed := true; changed; {
+			changed = false
+			for _, ax := range eng.lib.Axioms {
+				if !ax.Lemma || !used[ax.Name] || used["done:"+ax.Name] {
+					continue
+				}
+				used["done:"+ax.Name] = true
+				o := eng.lemmaObligation(ax, prop)
+				for l := range o.Unit.lemmasUsed {
+					if !used[l] {
+						used[l] = true
+						changed = true
+					}
+				}
+				obls = append(obls, o)
+			}
+		}
+	}
 	dischargeAll(obls, opts)
 
 	// verdicts
